@@ -228,6 +228,14 @@ def plan(tier, seed):
             e2 = dict(el)
             e2['order'] = order
             jobs.append({'prog': wrap_root(e2), 'vars': vars_, 'label': label})
+    # the further value classes (bytes, list, tuple, dict, float, object with markup in its string form, empty
+    # containers) at the condition / content / replace / attribute / omit-tag sites
+    for combo in ((False, 'cls', False, ('content', 'text'), None, None), (False, None, False, ('replace', 'text'), None, 'static'),
+                  (False, 'cls', False, None, None, 'new'), (True, None, False, ('content', 'structure'), None, None),
+                  (False, None, True, ('content', 'text'), None, 'static')):
+        el, vars_ = element(*combo)
+        vars_ = [[n, 'cls_x' if k == 'cls' else k, sl] for n, k, sl in vars_]
+        jobs.append({'prog': wrap_root(el), 'vars': vars_, 'label': 'classes-x:%s' % (combo,)})
     for kids, vars_, label in restore_programs():
         jobs.append({'prog': {'tag': 'div', 'children': ['A'] + kids + ['B'], 'close_indent': 0}, 'vars': vars_,
                      'label': label})
@@ -261,10 +269,9 @@ def plan(tier, seed):
                 'define/condition/repeat/content|replace/omit-tag/attributes whose binding space is <= %d '
                 'classes) in %s attribute order(s), 7x6 depth-2 nestings, 12 switch/case families (incl. switch together with repeat / condition on one element and a switch on the loop variable; documented and implemented relative order both admissible), 4 programs probing that the hidden outer binding (unbound / None / value) of a defined or loop variable is back after the element; bindings '
                 'decided by the solver per program: condition/omit flags bool, value class index over '
-                '[None, default, False, True, 0, 2, "", "a<"], sequence length 0..3 or None, define value int '
+                '[None, default, False, True, 0, 2, "", "a<"] and, on 5 programs, over [bytes, list, tuple, dict, float, object with markup in str(), empty list/dict/bytes], sequence length 0..3 or None, define value int '
                 'in [0,4); the splitting of \';\'-separated statement arguments (tal.split_parts) on 5 shapes with 3-4 symbolic code points. Outside: depth > 2, case together with repeat/condition-false on one element '
-                '(documentation and implementation order differ), bytes/one-shot iterators/dicts as values '
-                '(C02/C07/C08).' % (len(jobs), 160 if quick else 1300,
+                '(documentation and implementation order differ), one-shot iterators as values (C08).' % (len(jobs), 160 if quick else 1300,
                                     'one seeded' if quick else 'all (<=3 statements) or three')),
         assumptions=[
             'programs are enumerated (compile() is a C boundary); for each program the verdict over all '
